@@ -5,6 +5,7 @@ package main
 import (
 	"fmt"
 	"go/types"
+	"sort"
 
 	"golang.org/x/tools/go/ssa"
 )
@@ -86,7 +87,10 @@ const (
 	MCopy
 	MFill
 	MIte
+	MPages // stores at concrete indexes, kept in copy-on-write pages of 64 bytes over prev
 )
+
+type memPage [64]*Term
 
 type Mem struct {
 	kind MemKind
@@ -101,6 +105,8 @@ type Mem struct {
 	c    *Term // MIte
 	m2   *Mem  // MIte else
 	dep  int
+	pages map[uint64]*memPage // MPages
+	npg   int                 // number of stored entries (MPages)
 }
 
 var memZero = &Mem{kind: MZero}
@@ -116,6 +122,28 @@ func constMem(b []byte) *Mem { return &Mem{kind: MConst, data: b} }
 func c64(v int64) *Term { return BV(uint64(v), 64) }
 
 func memStore(m *Mem, idx, val *Term) *Mem {
+	if idx.IsConst() {
+		pn, po := idx.k>>6, idx.k&63
+		var nm *Mem
+		if m.kind == MPages {
+			nm = &Mem{kind: MPages, prev: m.prev, pages: make(map[uint64]*memPage, len(m.pages)+1), dep: m.dep, npg: m.npg}
+			for k, v := range m.pages {
+				nm.pages[k] = v
+			}
+		} else {
+			nm = &Mem{kind: MPages, prev: m, pages: map[uint64]*memPage{}, dep: m.dep + 1}
+		}
+		var pg memPage
+		if old := nm.pages[pn]; old != nil {
+			pg = *old
+		}
+		if pg[po] == nil {
+			nm.npg++
+		}
+		pg[po] = val
+		nm.pages[pn] = &pg
+		return nm
+	}
 	// overwrite of the same concrete index directly on top: drop the older one
 	if m.kind == MStore && m.idx == idx {
 		return &Mem{kind: MStore, prev: m.prev, idx: idx, val: val, dep: m.dep}
@@ -206,6 +234,33 @@ loop:
 				res = Ite(Eq(k, BV(uint64(i), 64)), BV(uint64(m.data[i]), 8), res)
 			}
 			break loop
+		case MPages:
+			if k.IsConst() {
+				if pg := m.pages[k.k>>6]; pg != nil && pg[k.k&63] != nil {
+					res = pg[k.k&63]
+					break loop
+				}
+				m = m.prev
+				continue
+			}
+			// symbolic index: every stored entry is a candidate
+			pns := make([]uint64, 0, len(m.pages))
+			for pn := range m.pages {
+				pns = append(pns, pn)
+			}
+			sort.Slice(pns, func(i, j int) bool { return pns[i] < pns[j] })
+			for _, pn := range pns {
+				pg := m.pages[pn]
+				for po := 0; po < 64; po++ {
+					if pg[po] != nil {
+						c := Eq(BV(pn<<6|uint64(po), 64), k)
+						if !c.IsFalse() {
+							ps = append(ps, pend{c, pg[po]})
+						}
+					}
+				}
+			}
+			m = m.prev
 		case MStore:
 			c := Eq(m.idx, k)
 			if c.IsTrue() {
